@@ -29,6 +29,9 @@ import (
 
 var errBrokenChunk = errors.NewPublic("cannot find crlf at the end of chunk")
 
+// maxChunkExtLen bounds the chunk extensions that are skipped on one chunk-size line.
+const maxChunkExtLen = 4096
+
 func ParseChunkSize(r network.Reader) (int, error) {
 	n, err := bytesconv.ReadHexInt(r)
 	if err != nil {
@@ -45,6 +48,18 @@ func ParseChunkSize(r network.Reader) (int, error) {
 		// Skip any trailing whitespace after chunk size.
 		if c == ' ' {
 			continue
+		}
+		// Skip chunk extensions (";name=value"): a recipient must ignore the ones
+		// it does not know, and hertz knows none.
+		if c == ';' {
+			for n := 0; c != '\r'; n++ {
+				if n > maxChunkExtLen {
+					return -1, errors.NewPublic("chunk extension is too long")
+				}
+				if c, err = r.ReadByte(); err != nil {
+					return -1, errors.NewPublic(fmt.Sprintf("cannot read '\r' char at the end of chunk size: %s", err))
+				}
+			}
 		}
 		if c != '\r' {
 			return -1, errors.NewPublic(
